@@ -7,12 +7,18 @@
     Both are functions of the same node forest and of shared oracles with no assumed behaviour.
 
     FULL STATEMENT (all forests, all oracles):  strict_blocks F = false -> prom_accepts F = true.
-    It is FALSE of the faithful models and of the real pint/Prometheus pair: five machine-checked refutations
-    below, each with a witness file that the real pint passes and the real rulefmt.Parse refuses (known findings
-    C01-merge-not-alias, C01-tag-kind, C01-null-tag-text, C01-group-labels-alias, C01-double-merge).  Three further classes (null record/alert/expr, group without a name, limit
-    that is no Go int) were repaired in pint (d65cbbf, cc77cdd, a6b0afc): their guards and the H_int hypothesis are gone
-    from the theorem, and their former witnesses are now machine-checked to be BLOCKED by the pint model
-    (C01_fixed_witnesses_blocked).
+    It is FALSE of the faithful models and of the real pint/Prometheus pair: one machine-checked refutation is left, with a
+    witness file that the real pint (HEAD 4a0d172) passes and the real rulefmt.Parse refuses: known finding
+    C01-merge-not-alias (`<<` of a non-alias).
+    Eight further classes were repaired in pint — null record/alert/expr (d65cbbf), group without a name (cc77cdd), limit
+    that is no Go int (a6b0afc), scalar tagged !!null with text (b9483ac), group `labels: *anchor` (17469da), two `<<` keys in
+    one mapping (e113542), explicit tag contradicting the kind (b22de24 at the group/rules/rule sites, 4a0d172 on rule values
+    and on collections tagged !!null): their former witnesses are machine-checked to be BLOCKED by the pint model now
+    (C01_fixed_witnesses_blocked, _round3, _tag_kind).
+    The guards / hypothesis of the first three are gone from the theorem.  For b9483ac the pint model now contains the strict
+    pre-pass (strict_prepass, shared oracle null_ok), so H_null and the "null-tagged scalars spell a null" clause of the guard are
+    no longer needed for the property to hold of the real code; they are still premises of the theorem as stated (removing
+    them needs an extensionality argument for the loader model over the reachable nodes — not done).
 
     PROVED (C01_sound_partial), for every stream of documents and every oracle instance satisfying
       H_tmpl   pint's template check (ParseTest + Expand) is at least as strict as Prometheus' (ParseTest),
@@ -205,6 +211,22 @@ Definition w_double_merge : node :=
         Mp "!!map" 10 5 388 [Sc "!!merge" "<<" 10 5 423; Node KAlias "!!map" "a" 10 9 407 [] (Some w_dm_a) None;
                              Sc "!!merge" "<<" 11 5 423; Node KAlias "!!map" "b" 11 9 407 [] (Some w_dm_b) None;
                              Sc "!!str" "alert" 12 5 439; Sc "!!str" "C" 12 12 439; Sc "!!str" "expr" 13 5 439; Sc "!!str" "up" 13 11 439]]]]]].
+(** What was left of the tag-kind class after b22de24 and was repaired by 4a0d172: (a) inside a rule the labels / annotations
+    value (and the values inside such mappings) were only checked by tag — `labels: !!map foo`; (b) kindMismatch exempted
+    every node tagged !!null, also a mapping standing where a list is expected — `rules: !!null {? r1 : r2}`. *)
+Definition w_tag_kind_rule_labels : node :=
+  Dc 1 1 388 [Mp "!!map" 1 1 388 [Sc "!!str" "groups" 1 1 439; Sq "!!seq" 2 1 388 [Mp "!!map" 2 3 388
+    [Sc "!!str" "name" 2 3 439; Sc "!!str" "g" 2 9 439; Sc "!!str" "rules" 3 3 439;
+     Sq "!!seq" 4 3 388 [Mp "!!map" 4 5 388 [Sc "!!str" "alert" 4 5 439; Sc "!!str" "A" 4 12 439; Sc "!!str" "expr" 5 5 439; Sc "!!str" "up == 0" 5 11 439;
+                                              Sc "!!str" "labels" 6 5 439; Sc "!!map" "foo" 6 13 439]]]]]].
+Definition w_null_tagged_mapping : node :=
+  Dc 1 1 388 [Mp "!!map" 1 1 388 [Sc "!!str" "groups" 1 1 439; Sq "!!seq" 2 1 388 [Mp "!!map" 2 3 388
+    [Sc "!!str" "name" 2 3 439; Sc "!!str" "g" 2 9 439; Sc "!!str" "rules" 3 3 439;
+     Mp "!!null" 3 10 388 [Mp "!!map" 4 7 388 [Sc "!!str" "record" 4 8 439; Sc "!!str" "a" 4 16 439; Sc "!!str" "expr" 4 19 439; Sc "!!str" "up" 4 25 439];
+                           Mp "!!map" 5 7 388 [Sc "!!str" "record" 5 8 439; Sc "!!str" "b" 5 16 439; Sc "!!str" "expr" 5 19 439; Sc "!!str" "up" 5 25 439]]]]]].
+Theorem C01_fixed_witnesses_blocked_tag_kind : now_blocked w_tag_kind_rule_labels /\ now_blocked w_null_tagged_mapping.
+Proof. vm_compute. repeat split. Qed.
+Print Assumptions C01_fixed_witnesses_blocked_tag_kind.
 Theorem C01_sound_refuted_merge_not_alias : refutes w_merge.
 Proof. vm_compute. repeat split. Qed.
 Print Assumptions C01_sound_refuted_merge_not_alias.
